@@ -44,7 +44,7 @@ SYMS = ["va", "vb", "vc", "vd", "m", "k", "L", "s", "v x", "", "d", "da"]
 MODS = [m for m in SHIPPED_MODULES]
 LOOKUPS = ["va", "vb", "vc", "vd", "kva", "kvb", "mvc", "hh", "ha", "cd", "nmi", "min.", "Pa", "TR", "dam", "kt", "dm", "hm", "vfa", "vfb"]
 OPS = ["lookup", "anon_dim", "name_dim_ctor", "derive_dim", "anon_prefix", "name_prefix", "define_unit", "anon_unit", "derive_unit",
-       "alias", "alias_bad", "import", "define_dim", "scale", "overlap", "anon_dim_doc"]
+       "alias", "alias_bad", "import", "define_dim", "scale", "overlap", "anon_dim_doc", "stale_dim_doc"]
 # the "overlap" op: two prefixes and two units of the history's own whose symbols overlap, declared
 # one at a time in generated order -- "vqxy" is vq+xy or vqx+y depending on what exists
 OVERLAP_TEXTS = ["vqxy", "vqy", "vqxxy"]
@@ -59,7 +59,7 @@ def budget(tier):
 
 
 def strategy(tier):
-    OP = st.sampled_from(OPS + ["lookup", "scale", "anon_prefix", "name_prefix", "anon_dim", "derive_dim", "alias", "define_unit", "derive_unit", "import", "overlap", "overlap", "anon_dim_doc", "define_dim"])
+    OP = st.sampled_from(OPS + ["lookup", "scale", "anon_prefix", "name_prefix", "anon_dim", "derive_dim", "alias", "define_unit", "derive_unit", "import", "overlap", "overlap", "anon_dim_doc", "define_dim", "stale_dim_doc", "define_dim"])
     I = st.integers(0, 999)
     step = st.tuples(OP, I, I, I, I).map(list)
     return st.builds(lambda steps: {"steps": steps}, st.lists(step, min_size=4, max_size=25))
@@ -81,6 +81,13 @@ def enumerate_cases(tier):
         cases.append({"steps": [first, ["anon_unit", 0, 0, 2, 1], ["derive_unit", 11, 3, 0, 0], second, ["alias", 10, 2, 0, 0]]})
     # a dimension that arrives in a document, then the definition of a new fundamental dimension
     cases.append({"steps": [["anon_dim_doc", 1, 0, 0, 0], ["define_dim", 0, 0, 0, 0], ["anon_dim_doc", 2, 0, 3, 1], ["define_dim", 1, 1, 0, 0]]})
+    # a dimension document written before the process defined further fundamental dimensions is read
+    # afterwards and the dimension it yields is given a name, with and without a symbol of its own
+    for nsym in (0, 1, 2):
+        for ndef in (1, 2, 3):
+            sym = [9, 0, 9][nsym]  # SYMS[9] is the empty symbol: the default symbol has to be rendered
+            cases.append({"steps": [["anon_dim", 0, 0, 1, 1]] + [["define_dim", k, k + 2, 0, 0] for k in range(ndef)]
+                          + [["stale_dim_doc", 1, 0, 4 + nsym, 2], ["derive_dim", 3, sym, 0, 0], ["lookup", 3, 0, 0, 0], ["derive_dim", 3, 1, 6, 0]]})
     # overlapping symbols of the history's own, declared in every order with look-ups in between
     for perm in range(24):
         cases.append({"steps": [["overlap", 0, 0, perm, 0]]})
@@ -304,6 +311,7 @@ def run_case(case) -> core.Outcome:
     r = Run()
     m = r.m
     dims = [m.Length, m.Time, m.Mass, m.Area, m.Speed]
+    ref_width = len(m.Length.exponents)
     units = [m.One]
     anon_prefixes = []
     named_prefixes = {}
@@ -340,6 +348,16 @@ def run_case(case) -> core.Outcome:
                 dim = m.Dimension.__from_json__({"__measured__": "Dimension", "name": None, "symbol": None, "exponents": [x * k for x in exps]})
                 dims.append(dim)
                 nontrivial_keys.add(("anon_dim_doc",))
+            elif op == "stale_dim_doc":
+                # the document dates from before this history's Dimension.define calls: it lists as
+                # many exponents as there were fundamental dimensions when the core was imported
+                exps = [0] * ref_width
+                exps[1 % ref_width] = c % 7 + 5
+                exps[2 % ref_width] = -(d % 5) - 3
+                dim = m.Dimension.__from_json__({"__measured__": "Dimension", "name": None, "symbol": None, "exponents": exps})
+                dims.append(dim)
+                dims[:] = dims[-1:] + dims[:-1]
+                nontrivial_keys.add(("stale_dim_doc",))
             elif op == "name_dim_ctor":
                 # constructor given a name for a dimension that may already exist anonymously
                 target = dims[c % len(dims)]
